@@ -20,6 +20,7 @@ func checkC08(c *Ctx, r *Report) {
 	ruleMdatEmptyTest(c, r)
 	ruleIndependentEnds(c, r, "O-INDEP", func(f *ssa.Function) bool { n := SSAFuncName(f); return strings.HasPrefix(n, "examples/segmenter.") || strings.HasPrefix(n, "mp4.") }, 2)
 	ruleNoMdatHeaderConstant(c, r, "W-MDATHDR")
+	requireFixture(r, "W-MDATHDR", "payloadStartWrong", func(fc *Ctx, s *Report) { ruleNoMdatHeaderConstant(fc, s, "W-MDATHDR") })
 	if f := c.ssaFunc(r, "DEP", "mp4", "DecodeMdatLazily"); f != nil {
 		sts := storesTo(f, "MdatBox.lazyDataSize")
 		if len(sts) == 0 {
